@@ -2,10 +2,13 @@
   Driver glue for C16. Case line:
     c16.run <count> <interval> <expMs> <nrules> RULE… <nops> OP…
       RULE := <limit> <c|s> <nconds> (<field> <value>)… <dfield> <nratios> (<pct> <share> <nvals> <value>…)… <defshare>
-      OP   := E <key> <ts> <now> <size> <nfields> (<field> <value>)…   |   X<ticks>
-    (the last rule is the default rule; byte strings are hex tokens)
+      OP   := E <key> <ts> <now> <size> <nfields> (<field> <value>)…   |   X<ticks>   |   T<nowUs>   |   I<genUs>
+    (the last rule is the default rule; byte strings are hex tokens; I = initial generation of the
+     limiters map, first op only; T = one maintenance iteration at that wall clock; X = wait for
+     real maintenance runs; X and T/I are not mixed)
   Implementation result:
-    H <nrules> (<defshare> <n> <share>…)…  R <p|d|x:<key>,…|panic:…>…  [S <nlims> (<key> <minID> <maxID> <nrows> <ncols> <v>…)…]
+    H <nrules> (<defshare> <n> <share>…)… E <limitersExp µs>  R <p|d|x:<key>,…|t:<key>,…|panic:…>…
+      [S <nlims> (<key> <minID> <maxID> <nrows> <ncols> <v>…)…] [G <curGen> <nlims> <gen>…]
   The keys an `X` op (wall-clock maintenance of the limiters map) deleted are an observation of
   the implementation's environment; the model replays them as `expire` ops.
 -/
@@ -89,6 +92,7 @@ def pRule : P Rule := do
 inductive COp
   | ev (e : Ev)
   | x (ticks : Nat)
+  | t (nowUs : Int)
 
 def pOp : P COp := do
   let t ← tok
@@ -103,19 +107,43 @@ def pOp : P COp := do
     match (t.drop 1).toNat? with
     | some n => pure (COp.x n)
     | none => failure
+  else if t.startsWith "T" then
+    match (t.drop 1).toInt? with
+    | some n => pure (COp.t n)
+    | none => failure
   else failure
 
 structure Case where
   cfg : Cfg
+  expMs : Int
+  g0 : Int
   ops : List COp
+
+/-- `n` ops; an `I<gen>` token in first position sets the initial generation and counts as an op -/
+def pOps : P (Int × List COp) := do
+  let n ← pNat
+  let ts ← get
+  match ts with
+  | t :: rest =>
+    if t.startsWith "I" then
+      match (t.drop 1).toInt? with
+      | some g => do
+        set rest
+        let ops ← many pOp (n - 1)
+        pure (g, ops)
+      | none => failure
+    else do
+      let ops ← many pOp n
+      pure (0, ops)
+  | [] => if n = 0 then pure (0, []) else failure
 
 def pCase : P Case := do
   let count ← pNat
   let interval ← pInt
-  let _exp ← pNat
+  let exp ← pInt
   let rules ← counted pRule
-  let ops ← counted pOp
-  pure ⟨⟨count, interval, rules⟩, ops⟩
+  let gops ← pOps
+  pure ⟨⟨count, interval, rules⟩, exp, gops.1, gops.2⟩
 
 /-! rendering -/
 
@@ -156,24 +184,32 @@ def xKeys (t : String) : Option (List Bytes) :=
 
 def encX (ks : List Bytes) : String := "x:" ++ ",".intercalate (ks.map Hex.enc)
 
-/-- model ops of a case, with the observed deletions substituted for the `X` ops -/
-def toOps : List COp → List (List Bytes) → List Op
-  | [], _ => []
-  | .ev e :: t, xs => Op.ev e :: toOps t xs
-  | .x _ :: t, ks :: xs => ks.map Op.expire ++ toOps t xs
-  | .x _ :: t, [] => toOps t []
+structure Run where
+  toks : List String
+  fin : State
+  gens : Gens
+  panicked : Bool
 
-/-- run the model op by op (the same `step` the theorems are about), rendering result tokens;
-    returns the tokens, the final state, and whether a panic ended the run -/
-def runCase (cfg : Cfg) : State → List COp → List (List Bytes) → List String × State × Bool
-  | s, [], _ => ([], s, false)
-  | s, .ev e :: t, xs =>
+def encT (ks : List Bytes) : String := "t:" ++ ",".intercalate (ks.map Hex.enc)
+
+def sortKeys (ks : List Bytes) : List Bytes :=
+  ks.foldr (fun k acc =>
+    let rec ins : List Bytes → List Bytes
+      | [] => [k]
+      | x :: t => if ltBytes k x then k :: x :: t else x :: ins t
+    ins acc) []
+
+/-- run the model op by op (the same `step` and `expandStep` the theorems are about), rendering
+    result tokens. `xs` = the deletions the implementation observed at its `X` ops -/
+def runCase (cfg : Cfg) (exp : Int) : State → Gens → List COp → List (List Bytes) → Run
+  | s, g, [], _ => ⟨[], s, g, false⟩
+  | s, g, .ev e :: t, xs =>
     match step cfg s (.ev e) with
-    | .error p => ([panicStr p], s, true)
+    | .error p => ⟨[panicStr p], s, g, true⟩
     | .ok sr =>
-      let r := runCase cfg sr.1 t xs
-      ((if sr.2 == Res.pass then "p" else "d") :: r.1, r.2)
-  | s, .x _ :: t, xs =>
+      let r := runCase cfg exp sr.1 (expandStep cfg exp true g (.ev e)).2 t xs
+      { r with toks := (if sr.2 == Res.pass then "p" else "d") :: r.toks }
+  | s, g, .x _ :: t, xs =>
     let ks := match xs with
       | k :: _ => k
       | [] => []
@@ -181,8 +217,16 @@ def runCase (cfg : Cfg) : State → List COp → List (List Bytes) → List Stri
       match step cfg st (.expire k) with
       | .ok sr => sr.1
       | .error _ => st) s
-    let r := runCase cfg s' t xs.tail
-    (encX ks :: r.1, r.2)
+    let r := runCase cfg exp s' g t xs.tail
+    { r with toks := encX ks :: r.toks }
+  | s, g, .t us :: t, xs =>
+    let eg := expandStep cfg exp true g (.tick us)
+    let s' := eg.1.foldl (fun st op =>
+      match step cfg st op with
+      | .ok sr => sr.1
+      | .error _ => st) s
+    let r := runCase cfg exp s' eg.2 t xs
+    { r with toks := encT (sortKeys (expiredKeys exp g us)) :: r.toks }
 
 /-- observed answers of the implementation: one per event op, `none` once it panicked / ran out -/
 def implObs : List COp → List String → Option (List (Ev × Bool))
@@ -192,12 +236,25 @@ def implObs : List COp → List String → Option (List (Ev × Bool))
     else if r = "d" then (implObs t rs).map ((e, false) :: ·)
     else none
   | .x _ :: t, _ :: rs => implObs t rs
+  | .t _ :: t, _ :: rs => implObs t rs
   | _ :: _, [] => none
 
 def hasX : List COp → Bool
   | [] => false
   | .x _ :: _ => true
-  | .ev _ :: t => hasX t
+  | _ :: t => hasX t
+
+/-- an op that can delete limiters -/
+def hasExpiry : List COp → Bool
+  | [] => false
+  | .ev _ :: t => hasExpiry t
+  | _ :: _ => true
+
+def encGens (lims : List (Bytes × Lim)) (g : Gens) : List String :=
+  ["G", toString g.cur, toString lims.length] ++ (sortLims lims).map (fun kv =>
+    match g.stamps.lookup kv.1 with
+    | some s => toString s
+    | none => "none")
 
 def verdictStr : SpecC16.Verdict → String
   | .ok => "ok"
@@ -217,12 +274,14 @@ def handle (cmd : String) (args impl : List String) : Option (String × String) 
     if rest ≠ [] then none else
     let rtoks := resultToks impl
     let xs := rtoks.filterMap xKeys
-    let r := runCase c.cfg State.init c.ops xs
-    let dump := if r.2.2 then [] else
-      ["S", toString r.2.1.lims.length] ++ (sortLims r.2.1.lims).map encLim
-    let m := unwords (["H", encShares c.cfg.rules, "R"] ++ r.1 ++ dump)
+    let exp := effExp (c.expMs * 1000000) c.cfg.interval c.cfg.count
+    let r := runCase c.cfg exp State.init ⟨c.g0, []⟩ c.ops xs
+    let dump := if r.panicked then [] else
+      ["S", toString r.fin.lims.length] ++ (sortLims r.fin.lims).map encLim ++
+      (if hasX c.ops then [] else encGens r.fin.lims r.gens)
+    let m := unwords (["H", encShares c.cfg.rules, "E", toString exp, "R"] ++ r.toks ++ dump)
     let p := match implObs c.ops rtoks with
-      | some obs => verdictStr (SpecC16.verdict c.cfg obs (!hasX c.ops))
+      | some obs => verdictStr (SpecC16.verdict c.cfg obs (!hasExpiry c.ops))
       | none =>
         -- the implementation panicked: outside the property's scope only for buckets_count = 0
         if c.cfg.count = 0 then "ok" else "fail:panic"
